@@ -100,13 +100,14 @@ def plan(tier, seed):
         for full in (0, 1):
             if alg == 6 and full == 0: continue
             d = {"NR": 8, "NC": 134, "ALG": alg, "MODE": 1, "KW": 1, "PROF": 1, "FULLRED": full, "RSYM": 7, "LASTCONC": None, "CONCK": None, "VSEED": 1 + seed}
+            if alg in (0, 3, 4): d["VPARENT_CONC"] = None   # PLE-based / naive routes test whole rows for zero: symbolic parent bits in the shared word would make control symbolic
             kw = {}
             if alg == 4: kw["replace_calls"] = {"_mzd_density": "verif_density_stub"}; d["DENSSEQ"] = 1
             if alg == 0: kw["unwindset"] = {"mzd_gauss_delayed": 10}
             V("ech%d-f%d-8x134" % (alg, full), "c02.c", d, 4, 1, 70, cbmc_flags=FS, timeout=1500, mem_gb=10, **kw)
             V("ech%d-f%d-8x134" % (alg, full), "c02.c", d, 4, 2, 0, cbmc_flags=FS, timeout=1500, mem_gb=10, **kw)
     for full in (0, 1):
-        d = {"NR": 8, "NC": 70, "ALG": 2, "MODE": 1, "KW": 2, "PROF": 2, "FULLRED": full, "KPAR": 1, "RSYM": 7, "LASTCONC": None, "CONCK": None}
+        d = {"NR": 8, "NC": 70, "ALG": 2, "MODE": 1, "KW": 2, "PROF": 2, "FULLRED": full, "KPAR": 1, "RSYM": 7, "LASTCONC": None, "CONCK": None, "VPARENT_CONC": None}
         V("ech2-lastword-f%d-8x70" % full, "c02.c", d, 4, 1, 70, cbmc_flags=FS, timeout=1500, mem_gb=10)
         d2 = dict(d, NR=12, NC=72, PROF=7, GAPAT=0, GAPLEN=58, KPAR=1, RSYM=11)
         V("ech2-lastword12-f%d-12x72" % full, "c02.c", d2, 4, 2, 70, cbmc_flags=FS, timeout=1500, mem_gb=10)
